@@ -158,8 +158,29 @@ VClientRead0(e) ==
   ELSE IF e.got # "empty" THEN V("C31_zero_length_read", H)
   ELSE V("", H)
 
+\* An authorised, well-formed request whose response is lost on the way back (the server has handled it).  The
+\* statement's "applies all of its writes or none ... the answer reflects the state before the writes" and "the two
+\* access paths agree" leave the client two honest outcomes: the call fails, or it reports the answer of the one
+\* application that took place; either way both servers hold the state of exactly one application.
+VReqLost(e) ==
+  LET r == NormReq(e.r)
+      b == NormBody(e.body)
+      o == HandleWith(H, r, {})
+      p == IF r.ep = "rtw" THEN "C24" ELSE "C31"
+      hasobs == "obs" \in DOMAIN e
+  IN IF ~Comparable(H, r) THEN V("harness_twin_not_comparable", H)
+     ELSE IF NormD(r, e.d.res) # DirectView(H, r) THEN V("C31_direct_result", H)
+     ELSE IF e.how = "ok" /\ ClientView(r, [status |-> e.status, body |-> b]) # NormD(r, e.d.res)
+            THEN V(p \o "_lost_response_answer", H)
+     ELSE IF hasobs /\ ~ObsOK(o.next.S, r.si, e.obs) THEN V(p \o "_lost_response_state", H)
+     ELSE IF e.same /\ ObsProj(o.next.S, r.si) # ObsProj(H.S, r.si) THEN V(p \o "_lost_response_state", H)
+     ELSE IF "obs" \in DOMAIN e.d /\ ~ObsOK(o.next.S, r.si, e.d.obs) THEN V("C31_agree_state", H)
+     ELSE IF e.d.same /\ ObsProj(o.next.S, r.si) # ObsProj(H.S, r.si) THEN V("C31_agree_state_not_changed", H)
+     ELSE V("", o.next)
+
 Verdict(e) ==
   CASE e.ev = "Req"     -> VReq(e)
+    [] e.ev = "ReqLost" -> VReqLost(e)
     [] e.ev = "ClientRead0" -> VClientRead0(e)
     [] e.ev = "Advance" -> VAdvance(e)
     [] OTHER            -> V("unknown_event", H)
